@@ -207,13 +207,17 @@ package security
 //@   assert before call hkdf.New #1 hkdf_of_the_secret_itself: [C16] len(arg1) == len(sessionKey) && (forall i :: 0 <= i && i < len(arg1) ==> arg1[i] == sessionKey[i]) && len(arg2) == 8 && len(arg3) == 6
 //@   ensures key_of_requested_length: [C16] err == nil ==> len(result) == keyLen
 
+// data-structure invariant of SSLAuthenticator: once the TLS handshake has run, tlsConn is the tls.Conn made over the tunnel
+// adapter (performTLSHandshake is the only writer of the field); assumed where swept functions call these
 //@ func (*SSLAuthenticator).exchangeSessionKey
 //@   props C13
+//@   requires tunnel: [typeinv] ssl.tlsConn != nil && tlsOverTunnel(ssl.tlsConn)
 //@   loop 1 invariant key_read: 0 <= totalRead && totalRead <= 256 && len(ssl.sessionKey) == 256
 //@   loop 2 invariant key_written: 0 <= totalWritten && totalWritten <= 256 && len(ssl.sessionKey) == 256
 
 //@ func (*SSLAuthenticator).exchangeSciToken
 //@   props C13
+//@   requires tunnel: [typeinv] ssl.tlsConn != nil && tlsOverTunnel(ssl.tlsConn)
 //@   loop 1 invariant token_read: 0 <= totalRead && totalRead <= tokenSize && len(tokenBytes) == tokenSize
 
 // ---- policy table (C10, C03): negotiateSecurity -------------------------------------------------
@@ -531,7 +535,7 @@ package security
 //@   assert after call Authenticator).setupStreamEncryption #1 enc_decided: [C03] callres == nil ==> (negotiation.ServerConfig.Encryption == "REQUIRED" ==> sealingOn(a.stream)) && negotiation.Encryption == sealingOn(a.stream) && (sealingOn(a.stream) || a.stream.gcm == nil)
 //@   nocall [C04] digests_frozen_only_at_key_installation: Stream).FinalizeDigests
 //@   assert after call Authenticator).handleServerAuthentication #1 auth_decided: [C03] callres == nil && negotiation.ServerConfig.Authentication == "REQUIRED" ==> negotiation.Authentication && authOKCount == old(authOKCount) + 1
-//@   ensures negotiation_on_success: err == nil ==> result != nil
+//@   ensures negotiation_on_success: [shared] err == nil ==> result != nil
 //@   ensures full_reports_real: [C03] err == nil && !result.SessionResumed ==> result.Encryption == (a.stream.gcm != nil)
 //@   ensures resumed_is_keyed: [C06] err == nil && result.SessionResumed ==> a.stream.gcm != nil && result.Encryption
 
